@@ -1,5 +1,6 @@
 """C05 — address pools neither leak nor miscount."""
 import verif as V
+import poolrace
 
 PROP = "C05"
 SPEC = ["Bng.Spec.C05", "Bng.Spec.C05Epoch", "Bng.Spec.C05FreeList", "Bng.Spec.C05Cluster", "Bng.Spec.C16PppoeWhole"]
@@ -33,6 +34,7 @@ LEVEL = ("Counting, exhaustion-only-when-full and release-returns are theorems o
          "operation histories and geometries; the models are tied to the real Go code by differential execution, and "
          "the abstract pool monitor judges the real code's Stats()/exhaustion answers against the holdings it handed out.")
 ASSUME = [
+    "concurrent callers: a burst of k concurrent Allocate calls of one subscriber (localpool, peercluster) is judged against ONE allocate (theorem burst_equals_single_allocate: under the pool's mutex a burst is a sequence of k calls, all but the first idempotent); the k goroutines are parked at the pool lock held by the harness and released together; the same workload runs a second time under the Go race detector; concurrent calls of DIFFERENT subscribers are not driven (their answers depend on the interleaving)",
     "small-scope exhaustive enumeration is part of the thorough tier only; bounds as listed in checks/c01.py (pools of 1-4 units, sequences of length 4-7); peercluster: random sequences only, nodes share peers and pool network",
     "free-list pools: the network is what net.ParseCIDR returns; the universe of a pool is what its constructor generates (dhcpv6 pools: the first 1000 units by design); 'usable' excludes addresses MarkUnavailable took off the free list; keys are mapped injectively to numbers",
     "epoch: expiry theorems assume byte(gracePeriod) <= 2 (finding D20 is the complement); Stats theorem assumes at least two slots (finding KF-epoch-tiny is the complement)",
@@ -40,9 +42,12 @@ ASSUME = [
     "bitmap theorems assume fewer than 2^64 units (GoodCfg); the complement is the recorded finding KF-bitmap-wide",
 ]
 
+# concurrent callers of pool.LocalPool: burst-heavy sequences on harnesses built with -race (lib/poolrace.py)
+RACE = poolrace.make(PROP, MON + ["leak"])
+
 
 def run(tier, seed):
-    return V.standard_check(PROP, SPEC, COMPS, LEVEL, ASSUME, tier, seed)
+    return V.standard_check(PROP, SPEC, COMPS, LEVEL, ASSUME, tier, seed, post=RACE)
 
 
 def replay(path):
